@@ -121,3 +121,29 @@ impl SigV4AuthenticatorBuilder {
             !self.complete() ==> r is Err,
     { unimplemented!() }
 }
+
+/// derive_builder output for SigV4AuthenticatorResponse: both fields `#[builder(setter(into), default)]`
+pub struct SigV4AuthenticatorResponseBuilder { pub principal: Option<Principal>, pub session_data: Option<SessionData> }
+pub uninterp spec fn default_principal() -> Principal;
+pub uninterp spec fn default_session_data() -> SessionData;
+impl SigV4AuthenticatorResponseBuilder {
+    #[verifier::external_body]
+    pub fn principal(&mut self, v: Principal) -> (r: &mut Self)
+        ensures *r == (SigV4AuthenticatorResponseBuilder { principal: Some(v), ..*old(self) }), *final(self) == *final(r)
+    { unimplemented!() }
+    #[verifier::external_body]
+    pub fn session_data(&mut self, v: SessionData) -> (r: &mut Self)
+        ensures *r == (SigV4AuthenticatorResponseBuilder { session_data: Some(v), ..*old(self) }), *final(self) == *final(r)
+    { unimplemented!() }
+    #[verifier::external_body]
+    pub fn build(&self) -> (r: Result<SigV4AuthenticatorResponse, UninitializedFieldError>)
+        ensures r is Ok,
+            r->Ok_0.s_principal() == (if self.principal is Some { self.principal->Some_0 } else { default_principal() }),
+            r->Ok_0.s_session_data() == (if self.session_data is Some { self.session_data->Some_0 } else { default_session_data() }),
+    { unimplemented!() }
+}
+impl SigV4AuthenticatorResponse {
+    /// `SigV4AuthenticatorResponse::builder()`
+    #[verifier::external_body]
+    pub fn builder() -> (r: SigV4AuthenticatorResponseBuilder) ensures r.principal is None, r.session_data is None { unimplemented!() }
+}
